@@ -451,6 +451,9 @@ class Interp:
     def e_block(self, e, env):
         return self.block(e, env)
 
+    def e_unsafe(self, e, env):
+        return self.block(e["block"], env)
+
     def e_int(self, e, env):
         return int(e["digits"])
 
@@ -482,6 +485,8 @@ class Interp:
             return self.consts[last2]
         if p in self.contracts or last2 in self.contracts:
             return VOpaque("fn:" + last2)      # a function named as a value (e.g. passed to `.map`)
+        if len(segs) == 2 and segs[1].isupper() and segs[0] not in ("Self",):
+            return Sym(last2)                  # an associated constant of another type (e.g. u64::SIZE): a symbol
         ENUMS = ("Error", "PlonkVersion", "Selector", "WiredWitness")
         if segs[0] in ENUMS or (len(segs) >= 2 and segs[-2] in ENUMS):
             return VOpaque(last2)
@@ -677,6 +682,24 @@ class Interp:
             items = list(range(it.lo, it.hi))
         elif isinstance(it, (VIter, VArr)):
             items = it.items
+        elif isinstance(it, VSymIter):
+            # a loop over a collection of unknown length: the body is executed ONCE on the generic element; its events and
+            # early exits are recorded as one event "for every element, in order"; pushes onto outer vectors add one
+            # generic entry `for_each_pushed(collection, value)`
+            env2 = dict_child(env)
+            self.bind(e["pat"], Sym(it.sym.path + "[*]"), env2)
+            saved_log, saved_exits, saved_loop = self.ctx.log, self.ctx.exits, getattr(self, "generic_loop", None)
+            self.ctx.log, self.ctx.exits, self.generic_loop = [], [], it.sym
+            try:
+                try:
+                    self.block(e["body"], env2)
+                except Continue:
+                    pass
+                sub_log, sub_exits = tuple(self.ctx.log), tuple(self.ctx.exits)
+            finally:
+                self.ctx.log, self.ctx.exits, self.generic_loop = saved_log, saved_exits, saved_loop
+            self.ctx.event("for_each_in_order", it.sym.path, sub_log, sub_exits)
+            return UNIT
         elif isinstance(it, VPointwise):
             # the body is executed once on the generic index: every coefficient is updated the same way, i.e. the
             # update is an operation on the polynomials (`*c += *t * k`  ==  C(X) += T(X) * k)
@@ -1085,6 +1108,10 @@ class Interp:
             return VOpaque(m, [recv, args[0]])
         if m == "get" and isinstance(recv, (Sym, VOpaque)) and len(args) == 1:
             return VOpaque("get", [recv, args[0]])
+        if m in ("chunks_exact", "chunks") and isinstance(recv, (Sym, VOpaque)) and len(args) == 1:
+            return VSymIter(Sym(VOpaque(m, [recv, args[0]]).canon()))
+        if m == "ok_or" and isinstance(recv, VOpaque) and recv.name != "get" and len(args) == 1:
+            return ("fallible", f"{recv.canon()} is None => Err({canon_err(args[0])})", VOpaque("some_of", [recv]))
         if m == "ok_or" and isinstance(recv, VOpaque) and recv.name == "get" and len(args) == 1:
             return ("fallible", f"{recv.canon()} is None => Err({canon_err(args[0])})", VOpaque("some_of", [recv]))
         if m == "len" and isinstance(recv, (Sym, VOpaque, Poly)) and not args:
@@ -1110,7 +1137,10 @@ class Interp:
         if m == "map" and isinstance(recv, VRange) and isinstance(recv.lo, int) and isinstance(recv.hi, int) and isinstance(args[0], VClosure):
             return VIter([self.call_closure(args[0], [x]) for x in range(recv.lo, recv.hi)])
         if m == "push" and isinstance(recv, VArr):
-            recv.items.append(args[0])
+            if getattr(self, "generic_loop", None) is not None:
+                recv.items.append(VOpaque("for_each_pushed", [self.generic_loop, args[0]]))
+            else:
+                recv.items.append(args[0])
             return UNIT
         if m in ("extend_from_slice", "extend") and isinstance(recv, VArr):
             a = args[0]
